@@ -21,8 +21,11 @@ def observe(q, case):
     with warnings.catch_warnings():
         warnings.simplefilter("ignore")
         try:
-            objs, meas = exprgen.build_impl(q, case)
+            casts = []
+            objs, meas = exprgen.build_impl(q, case, casts)
             r = objs[case["root"]]
+            # a result overridden by hand is a measurement with the numbers the library now holds
+            out["casts"] = [[i, bits(float(o_.value)), bits(float(o_.error))] for i, o_ in casts]
             if case.get("fault"):
                 # a failing computation earlier in the session (division by a quantity whose central
                 # value is exactly 0) must not influence later answers
@@ -55,6 +58,8 @@ def model_line(case, obs=None, revalued=False):
     vals, errs = list(case["vals"]), list(case["errs"])
     if obs and "vals" in obs:
         vals[:n], errs[:n] = obs["vals"], obs["errs"]
+        for i, vb, eb in obs.get("casts", []):
+            vals[i], errs[i] = vb, eb
     if revalued:
         vals[case["revalue"][0]] = case["revalue"][1]
     return {"cmd": "expr", "nodes": exprgen.model_nodes(case["nodes"]), "root": case["root"],
@@ -74,6 +79,8 @@ def pretty(case):
             return "({!r}, {!r})".format(unbits(case["vals"][n[1]]), unbits(case["errs"][n[1]]))
         if n[0] == "const":
             return repr(unbits(n[1]))
+        if n[0] == "cast":
+            return "[{} overridden: {} = {!r}]".format(s(n[1]), n[2], unbits(n[3]))
         if n[0] in ("un", "deg"):
             return "{}({})".format(n[1], s(n[2]))
         sym = {"add": "+", "sub": "-", "mul": "*", "div": "/", "pow": "**"}.get(n[1])
@@ -119,6 +126,8 @@ def run(ctx, what, n_cases, ref=False, gen_kwargs=None, cases=None):
         dist["corr" if c["rho"] else "nocorr"] += 1
         dist["pairs" if any(n[0] == "pair" for n in c["nodes"]) else "nopairs"] += 1
         dist["repeated" if c.get("raw") else "single-only"] += 1
+        for how in c.get("casts") or []:
+            dist["overridden-result:" + how] += 1
         if c.get("template"):
             dist["template:" + c["template"]] += 1
         if c.get("equal_pairs"):
@@ -206,7 +215,8 @@ def finite_difference_search(ctx, n_cases, gen_kwargs=None):
     failures = []
     tried = 0
     for _ in range(n_cases):
-        c = exprgen.gen_case(ctx.rng, allow_pairs=False, **(gen_kwargs or {}))
+        kw = dict(gen_kwargs or {}, allow_cast=False, allow_special=False)
+        c = exprgen.gen_case(ctx.rng, allow_pairs=False, **kw)
         if c is None:
             continue
         o = observe(q, c)
